@@ -575,4 +575,46 @@ Section Facts.
       rewrite (stop_check_opt _ _ _ Hk). split; [assumption|].
       rewrite map_app. apply Forall_app. split; [assumption|]. constructor; [exact Hq|constructor].
   Qed.
+
+  (* ------------------------------------------------------------------ history-indexed contracts *)
+  (* J st H: an invariant of the optimizer's state relative to the list H of (position, score) pairs
+     evaluated so far; each driver step extends H by the pair it evaluated *)
+  Record opt_hist_contract (J : ost OP -> list (pos * score) -> Prop) : Prop := {
+    ohc_init : forall st st1 p sc st2 H, J st H -> o_init_pos OP st = Ok (st1, p) ->
+                 o_eval_init OP st1 sc = Ok st2 -> J st2 (H ++ [(p, sc)]);
+    ohc_iter : forall st st1 p sc st2 H, J st H -> o_iterate OP st = Ok (st1, p) ->
+                 o_evaluate OP st1 sc = Ok st2 -> J st2 (H ++ [(p, sc)]);
+    ohc_finish : forall st st' H, J st H -> o_finish_init OP st = Ok st' -> J st' H
+  }.
+
+  Definition ev_pair (e : ev) : pos * score := (ev_pos e, ev_score e).
+
+  Lemma opt_rel_hist J s k s' p sc H :
+    opt_hist_contract J -> J (d_opt s) H -> opt_rel s k s' p sc -> J (d_opt s') (H ++ [(p, sc)]).
+  Proof.
+    intros C Hj Ho. unfold opt_rel in Ho. destruct (is_init_step s k).
+    - destruct Ho as (o1 & A & B). eapply ohc_init; eauto.
+    - destruct Ho as (o0 & o1 & A & B & D).
+      assert (J0 : J o0 H). { destruct (k =? d_n_init_search s); [eapply ohc_finish; eauto|subst; assumption]. }
+      eapply ohc_iter; eauto.
+  Qed.
+
+  Lemma reach_hist J s0 tr s H0 :
+    opt_hist_contract J -> J (d_opt s0) H0 -> reach s0 tr s -> J (d_opt s) (H0 ++ map ev_pair tr).
+  Proof.
+    intros C Hj. induction 1 as [|tr s s1 s2 p v r Hr IH Hs R Ho Hk].
+    - cbn. rewrite app_nil_r. assumption.
+    - rewrite (stop_check_opt _ _ _ Hk), map_app, app_assoc. cbn.
+      apply (opt_rel_hist J _ _ _ _ _ _ C IH Ho).
+  Qed.
+
+  Lemma ended_hist J s0 n tr sE b H0 :
+    opt_hist_contract J -> J (d_opt s0) H0 -> ended s0 n tr sE b -> J (d_opt sE) (H0 ++ map ev_pair tr).
+  Proof.
+    intros C Hj [tr' s' Hr Hl | tr' s' s1 s2 p v r Hr Hl Hs R Ho Hk].
+    - eapply reach_hist; eauto.
+    - pose proof (reach_hist J _ _ _ _ C Hj Hr) as J1.
+      rewrite (stop_check_opt _ _ _ Hk), map_app, app_assoc. cbn.
+      apply (opt_rel_hist J _ _ _ _ _ _ C J1 Ho).
+  Qed.
 End Facts.
